@@ -177,6 +177,7 @@ split.
   by rewrite /pad appE nth_cat sh jk eVs nth_take.
 Qed.
 
+Local Arguments arnoldi_step : simpl never.
 (* the complete Krylov invariant of k columns:  A V_k = V_k H_k + f e_k' with H_k upper Hessenberg,  V_k' V_k = I,  V_k' f = 0,  beta = |f| *)
 Definition Full (k : nat) (Fc : fac) : Prop :=
   [/\ InvW Arows n m k Fc, R2 Arows n k Fc \/ dropped n Fc, Orth k Fc, Fperp k Fc & Bnorm Fc].
